@@ -35,6 +35,10 @@ def run(ctx):
                 key = "ConfigText:DevFailOpenCopy:Config.Redacted"
             elif v.get("mixed") and v.get("returned_original"):
                 key = "ConfigText:DevFailOpenCopy:Config.Redacted"
+            elif v.get("leaked") and not v.get("returned_original") and all(
+                    l.split(":")[-1] in T.REF_SHAPED for l in v["leaked"]):
+                # only values that are as a whole one variable reference escaped the mask
+                key = "ConfigText:DevSkipRefShaped:redact"
             else:
                 first = (v.get("leaked") or v.get("not_masked") or [kind])[0]     # "kind[idx]:class"
                 key = "ConfigText:unexplained:%s:%s:%s" % (v["cls"], first.split("[")[0],
@@ -52,8 +56,10 @@ def run(ctx):
     ctx.evidence(
         "exploration",
         assumptions=[
-            "value classes (ascii, YAML-special, control characters, leading newline, non-UTF-8, long multi-line PEM) "
-            "are instantiated by seeded generators; other classes of text are not covered",
+            "value classes (ascii, YAML-special, control characters, leading newline, non-UTF-8, long multi-line PEM; "
+            "for secrets also values shaped like what config.go itself interprets: $NAME, ${NAME}, ${NAME:-default}, "
+            "${...} with arbitrary bytes, unclosed ${, whole-value matches of every regexp compiled in config.go, its "
+            "string constants) are instantiated by seeded generators; other classes of text are not covered",
             "one focus secret slot per case, all other secrets share one class (plus seeded configurations with an "
             "independent random class per string field)",
             "a leak is recognised by the unique marker embedded in each secret value, verbatim or base64",
@@ -65,5 +71,6 @@ def run(ctx):
              "string field filled",
         exhaustive=False, tlc_cases=len(vecs), tlc_states=ideal.distinct, mixed_class_configs=summ["mixed"],
         leaks=summ["leaks"], original_changed=summ["orig_changed"], returned_original=summ["returned_original"],
-        yaml_roundtrip_breaking_classes=real_breaking, max_rendering_bytes=summ["max_rendering_bytes"],
+        yaml_roundtrip_breaking_classes=real_breaking, source_regexps=summ.get("source_patterns"),
+        source_constants=summ.get("source_constants"), max_rendering_bytes=summ["max_rendering_bytes"],
         deviations_caught=caught, violation_classes=summ["violation_classes"], samples=summ["samples"] or [vecs[0]])
